@@ -364,7 +364,12 @@ pub(crate) fn extract_code_block_start(line: &str) -> Option<(&str, &str, &str)>
                 ));
             }
         } else if ch != '`' {
-            if index < 2 {
+            // a fence has at least three backticks ..
+            if index < 3 {
+                return None;
+            }
+            // .. and no further backticks on the line (that is inline code)
+            if line[index..].contains('`') {
                 return None;
             }
             language_start = Some(index);
